@@ -353,6 +353,7 @@ def build_case(d):
     tree = []
     used = set()
     dirs = ['']
+    files = []
 
     def add(path, kind, **kw):
         if path in used or len(tree) >= 25:
@@ -372,6 +373,7 @@ def build_case(d):
         for i in range(1, len(parts)):
             add('/'.join(parts[:i]), 'dir')
         add(opts['boot']['file'], 'file', content={'seed': 999983, 'size': 2048})
+        files.append({'seed': 999983, 'size': 2048})     # so that 'dup' entries can be copies of the boot image
         cparts = opts['boot']['catalog'].split('/')
         for i in range(1, len(cparts)):
             add('/'.join(cparts[:i]), 'dir')
@@ -382,7 +384,6 @@ def build_case(d):
         nm = fit_name(d['chain_names'][i], opts, avoided)
         cur = join(cur, nm)
         add(cur, 'dir')
-    files = []
     for idx, (psel, kind, name, cdraw, tdraw) in enumerate(d['entries']):
         name = fit_name(name, opts, avoided)
         parent = dirs[psel % len(dirs)]
